@@ -224,6 +224,16 @@ func TestVerifC09(t *testing.T) {
 		{name: "jobs", header: "on: pull_request\njobs:\n", items: c09Jobs},
 		{name: "steps", header: "on: pull_request\njobs:\n  j:\n    runs-on: ubuntu-latest\n    strategy:\n      matrix:\n        os: [a]\n        z: [[1, 2]]\n    steps:\n", items: c09Steps},
 	}
+	// jobs under a workflow_call header: the inputs / needs object types are shared by the whole
+	// file; a job that merges them into its matrix must not change what later jobs see
+	families = append(families, &c09Family{name: "call-jobs", header: "on:\n  workflow_call:\n    inputs:\n      version:\n        type: string\njobs:\n", items: []c09Item{
+		{name: "cplain", text: "  cplain:\n    runs-on: ubuntu-latest\n    outputs:\n      o: v\n    steps:\n      - run: echo ${{ inputs.version }}\n"},
+		{name: "cvictim", text: "  cvictim:\n    runs-on: ubuntu-latest\n    steps:\n      - run: echo ${{ inputs.flavor }} ${{ inputs.version.x }} ${{ github.flavor }}\n"},
+		{name: "caliasinputs", text: "  caliasinputs:\n    runs-on: ubuntu-latest\n    strategy:\n      matrix:\n        include:\n          - ${{ inputs }}\n          - flavor: debug\n    steps:\n      - run: echo ${{ matrix.flavor }}\n"},
+		{name: "caliasunknown", text: "  caliasunknown:\n    runs-on: ubuntu-latest\n    strategy:\n      matrix:\n        include:\n          - ${{ inputs }}\n          - ${{ fromJSON(vars.X) }}\n    steps:\n      - run: echo ${{ matrix.anything }}\n"},
+		{name: "caliasneeds", text: "  caliasneeds:\n    needs: [cplain]\n    runs-on: ubuntu-latest\n    strategy:\n      matrix:\n        include:\n          - ${{ needs.cplain.outputs }}\n          - zz: 1\n    steps:\n      - run: echo ${{ matrix.zz }}\n", deps: []string{"cplain"}},
+		{name: "cvictimneeds", text: "  cvictimneeds:\n    needs: [cplain]\n    runs-on: ubuntu-latest\n    steps:\n      - run: echo ${{ needs.cplain.outputs.zz }} ${{ needs.cplain.outputs.o }}\n", deps: []string{"cplain"}},
+	}})
 	// expression family: each expression is its own step (separate strings)
 	ex := &c09Family{name: "exprs", header: "on: pull_request\njobs:\n  j:\n    runs-on: ubuntu-latest\n    strategy:\n      matrix:\n        os: [a]\n        z: [[1, 2]]\n    steps:\n      - id: a\n        run: echo\n"}
 	for i, e := range c09Exprs {
@@ -282,7 +292,7 @@ func TestVerifC09(t *testing.T) {
 	aloneCache := map[string][]string{}
 	var idx int64
 	for _, f := range families {
-		maxLen := map[string]int{"jobs": jobLen, "steps": stepLen, "exprs": exprLen}[f.name]
+		maxLen := map[string]int{"jobs": jobLen, "steps": stepLen, "exprs": exprLen, "call-jobs": 4}[f.name]
 		c09Sequences(len(f.items), maxLen, func(sel []int) bool {
 			idx++
 			if !r.Mine(idx) {
@@ -308,7 +318,7 @@ func TestVerifC09(t *testing.T) {
 				return true
 			}
 			for k, it := range seq {
-				aseq := f.alone(seq, k, f.name != "jobs")
+				aseq := f.alone(seq, k, f.name != "jobs" && f.name != "call-jobs")
 				var names []string
 				pos := 0
 				for i, a := range aseq {
